@@ -96,7 +96,7 @@ P = {
         "name": "rules", "pkg": "./internal/rules", "test": "TestVerifC19Rules",
         "overlay": _ov({"internal/rules/zz_verif_c19_test.go": "c19/rules_test.go"}),
         "eval_module": "Run.Eval_C19", "check_term": "check_rules " + _FX,
-        "n_quick": 200, "n_thorough": 4000, "findings": _KF, "env": _ENV, "shard": 100,
+        "n_quick": 200, "n_thorough": 4000, "findings": _KF, "env": _ENV, "shard": 280,
     }, {
         "name": "fs", "pkg": "./internal/rules/provider/filesystem", "test": "TestVerifC19FS",
         "overlay": _ov({"internal/rules/provider/filesystem/zz_verif_c19_test.go": "c19/fs_test.go"}),
